@@ -167,7 +167,16 @@ def build_filter(f):
     acc = subs[0]
     for g in subs[1:]:
         acc = (acc & g) if k == "and" else (acc | g)
+        _derive_from(acc)
     return acc
+
+
+def _derive_from(flt):
+    """Users keep a filter and derive others from it (`base = f & g; urgent = base & h`): building
+    the derived ones must leave the kept one as it was."""
+    extra = P.seconds >= 0
+    for other in (flt & extra, flt | extra, extra & flt, extra | flt):
+        del other
 
 
 def pyval(v):
@@ -234,6 +243,12 @@ def _build1(t, env, leaf_hook, memo):
     if op == "flatten":
         return flatten(build(t["s"], env, leaf_hook))
     if op == "filt":
+        if t.get("chain") and t["f"]["k"] == "and":
+            # the conjunction written as a chain: tl & f1 & f2 (the same events as tl & (f1 & f2))
+            acc = build(t["s"], env, leaf_hook)
+            for g in t["f"]["fs"]:
+                acc = acc & build_filter(g)
+            return acc
         return build(t["s"], env, leaf_hook) & build_filter(t["f"])
     if op == "buf":
         return buffer(build(t["s"], env, leaf_hook), before=t["before"], after=t["after"])
@@ -495,8 +510,8 @@ class Gen:
             if sub["op"] == "stored":
                 # field filters need the fields: only on all-rich stored leaves
                 allrich = all(e[2] is not None for e in sub["evs"])
-                return {"op": "filt", "s": sub, "f": self.filt(2, fields=allrich)}
-            return {"op": "filt", "s": sub, "f": self.filt(2, fields=False)}
+                return self._chain({"op": "filt", "s": sub, "f": self.filt(2, fields=allrich)})
+            return self._chain({"op": "filt", "s": sub, "f": self.filt(2, fields=False)})
         if op == "buf":
             return {"op": "buf", "s": self.tree(depth - 1, ops, leaf_mode, rich),
                     "before": r.choice([0, 0, 1, 2, 5]), "after": r.choice([0, 0, 1, 2, 5])}
@@ -504,6 +519,11 @@ class Gen:
             return {"op": "mw", "s": self.tree(depth - 1, ops, leaf_mode, rich),
                     "gap": r.choice([0, 1, 2, 5])}
         raise ValueError(op)
+
+    def _chain(self, node):
+        if node["f"]["k"] == "and" and self.rng.random() < 0.4:
+            node["chain"] = True
+        return node
 
     def with_empty_event(self, t, p=0.12):
         """A subtractor may hold a zero-length interval (start == end): it covers no instant and must
@@ -553,8 +573,12 @@ class Gen:
         r = self.rng
         k = r.random()
         if depth > 0 and k < 0.3:
-            return {"k": r.choice(["and", "or"]),
-                    "fs": [self.filt(depth - 1, fields) for _ in range(r.choice([2, 2, 3]))]}
+            fs = [self.filt(depth - 1, fields) for _ in range(r.choice([2, 2, 3]))]
+            if fs[0]["k"] == "cmp" and fs[0]["v"][0] == "int" and r.random() < 0.25:
+                # look-alike conjuncts: the same comparison with the same constant on another property
+                others = [q for q in (["dur", 1], ["dur", 60], ["start"], ["end"]) if q != fs[0]["p"]]
+                fs[1] = dict(fs[0], p=r.choice(others))
+            return {"k": r.choice(["and", "or"]), "fs": fs}
         k = r.random()
         if r.random() < 0.08:
             props = [["dur", 1], ["dur", 60], ["start"], ["end"]]
